@@ -84,6 +84,10 @@ class AlgebraicReductionRule(AbstractNaryRule):
                     continue
                 operands[index : index + 2] = new_ops
 
+                # if the rule produces an IdentityOperator, we discard it
+                if any(isinstance(op, IdentityOperator) for op in new_ops):
+                    operands = identity_rule.apply(operands)
+
                 # if the rule produces a HomothetyOperator, we deal with it first
                 if any(isinstance(op, HomothetyOperator) for op in new_ops):
                     operands = homothety_rule.apply(operands)
